@@ -140,6 +140,7 @@ func diffViews(a, b []opView) string {
 func runC04(c *runCtx) {
 	defer cleanupScratch()
 	c04Identities(c)
+	c04Alias(c)
 	N := c.pick(160, 2500)
 	for i := 0; i < N; i++ {
 		r := c.rng.fork()
@@ -378,5 +379,109 @@ func c04Identities(c *runCtx) {
 			repo.Close()
 			cleanupScratch()
 		}
+	}
+}
+
+// c04Alias: the editing API as a caller uses it, with the caller keeping (and reusing) the metadata map
+// it passed (the API copies it key by key; slices of file hashes are handed over to the operation and not
+// reused here): what a call accepted — the operation id it handed back and the content — is what
+// is read back after the commit, whatever the caller does to its own arguments afterwards.
+func c04Alias(c *runCtx) {
+	for rep := 0; rep < c.pick(12, 120); rep++ {
+		r := c.rng.fork()
+		repo := newMock()
+		restore := storeFilesIn(repo)
+		authors := mkAuthors(repo, 1)
+		a := authors[0]
+		t := int64(1_600_000_000)
+		md := map[string]string{"k": "v" + randHexId(r, 3)}
+		files := []repository.Hash{fileSource(r)}
+		b, cop, err := bug.Create(a, t, "aliasing "+randHexId(r, 4), "message", files, md)
+		if err != nil {
+			panic(err)
+		}
+		type accepted struct {
+			call, id, payload string
+		}
+		var acc []accepted
+		note := func(call string, op dag.Operation) {
+			acc = append(acc, accepted{call, string(op.Id()), mustJSON(opJSONWire(op))})
+		}
+		note("Create", cop)
+		scribble := func() {
+			// the caller reuses its map and slice for the next call
+			md["k"] = "changed " + randHexId(r, 3)
+			md["extra"+randHexId(r, 2)] = "x"
+		}
+		scribble()
+		n := r.rangeInt(2, 6)
+		for k := 0; k < n; k++ {
+			t++
+			switch r.intn(6) {
+			case 0:
+				if _, op, err := bug.AddComment(b, a, t, "comment "+randHexId(r, 3), files, md); err == nil {
+					note("AddComment", op)
+				}
+			case 1:
+				if _, op, err := bug.EditComment(b, a, t, cop.Id(), "edited "+randHexId(r, 3), files, md); err == nil {
+					note("EditComment", op)
+				}
+			case 2:
+				if op, err := bug.SetMetadata(b, a, t, cop.Id(), md); err == nil {
+					note("SetMetadata", op)
+				}
+			case 3:
+				add := []string{"l" + randHexId(r, 2), "m" + randHexId(r, 2)}
+				if _, op, err := bug.ChangeLabels(b, a, t, add, nil, md); err == nil {
+					note("ChangeLabels", op)
+					add[0] = "scribbled"
+				}
+			case 4:
+				if op, err := bug.SetTitle(b, a, t, "title "+randHexId(r, 3), md); err == nil {
+					note("SetTitle", op)
+				}
+			case 5:
+				add := []string{"f" + randHexId(r, 2)}
+				if op, err := bug.ForceChangeLabels(b, a, t, add, nil, md); err == nil {
+					note("ForceChangeLabels", op)
+					add[0] = "scribbled"
+				}
+			}
+			scribble()
+			if r.chance(1, 3) {
+				if err := b.Commit(repo); err != nil {
+					panic(err)
+				}
+			}
+		}
+		if b.NeedCommit() {
+			if err := b.Commit(repo); err != nil {
+				panic(err)
+			}
+		}
+		c.count(fmt.Sprintf("alias-session-ops=%d", len(acc)))
+		rb, err := bug.Read(repo, b.Id())
+		if err != nil {
+			c.violation(-1, "C04/alias", "a bug written through the editing API (caller reusing its metadata map and file slice) cannot be read back: "+err.Error(), nil)
+			restore()
+			continue
+		}
+		ops := rb.Operations()
+		if len(ops) != len(acc) {
+			c.violation(-1, "C04/alias", fmt.Sprintf("%d operations accepted, %d read back", len(acc), len(ops)), nil)
+			restore()
+			continue
+		}
+		for i, o := range ops {
+			if string(o.Id()) != acc[i].id {
+				c.violation(-1, "C04/alias-id", fmt.Sprintf("%s: the operation id handed back by the call (%s) is not the id of the operation as stored (%s): the caller changed its own metadata map / slice after the call", acc[i].call, acc[i].id[:10], string(o.Id())[:10]), nil)
+				break
+			}
+			if got := mustJSON(opJSONWire(o)); got != acc[i].payload {
+				c.violation(-1, "C04/alias-content", fmt.Sprintf("%s: the content read back differs from what the call accepted (the caller changed its own map / slice after the call): accepted %s, stored %s", acc[i].call, trunc(acc[i].payload, 200), trunc(got, 200)), nil)
+				break
+			}
+		}
+		restore()
 	}
 }
